@@ -40,7 +40,19 @@ RULE = ("three families: (seq) real policy.Policy on a temp file with generated 
         "on boundary lengths/alphabets. A seq case is non-trivial when at least one operation ran; distinct by file+ops")
 
 
+def build_findings(ctx):
+    """Findings/F_C25_n.v refute the full statement on the model; they stop compiling when a defect is repaired."""
+    import glob, os
+    out = {}
+    for f in sorted(glob.glob(os.path.join(vlib.COQ, "Findings", "F_C25_*.v"))):
+        rc, so, se, dt = vlib.sh(["coqc", "-Q", ".", "PS", "-w", "-notation-overridden", os.path.relpath(f, vlib.COQ)],
+                                 cwd=vlib.COQ, timeout=600)
+        out[os.path.basename(f)] = "refutation checks" if rc == 0 else "no longer compiles (defect repaired or model changed)"
+    ctx.extra["findings_refuted_in_coq"] = out
+
+
 def run(ctx):
+    build_findings(ctx)
     n = 200 if ctx.quick else 4000
     d = ctx.harness("c25", args=["-n", n])
     if d is None:
